@@ -93,3 +93,49 @@ def model_lines(b, reqs, timeout=600):
     for r in common.pmap(work, parts):
         res.extend(r)
     return res
+
+
+# ---------------------------------------------------------------- parser model requests
+import hashlib
+
+_STD_CACHE = {}
+
+
+def std_files():
+    d = os.path.join(common.REPO, "std")
+    key = d
+    if key not in _STD_CACHE:
+        out = {}
+        if os.path.isdir(d):
+            for root, _, fs in os.walk(d):
+                for f in fs:
+                    p = os.path.join(root, f)
+                    out["/x/std/" + os.path.relpath(p, d)] = open(p, "rb").read()
+        _STD_CACHE[key] = out
+    return _STD_CACHE[key]
+
+
+def prefix_of(content):
+    return "h" + hashlib.sha256(content).hexdigest()[:7]
+
+
+def parse_request(case):
+    """PARSE request for the Lean parser model: virtual absolute paths /v/<rel>, std under /x/std"""
+    parts = ["PARSE", ("/v/" + case.main).encode().hex(), b"/x".hex()]
+    files = {"/v/" + rel: (c if isinstance(c, bytes) else c.encode()) for rel, c in case.files.items()}
+    files.update(std_files())
+    for p, c in files.items():
+        parts += [p.encode().hex(), c.hex(), prefix_of(c)]
+    return " ".join(parts)
+
+
+def model_parse(b, cases):
+    answers = model_lines(b, [parse_request(c) for c in cases])
+    for c, a in zip(cases, answers):
+        c.meta["model_ast"] = a
+    return answers
+
+
+def impl_ast_canon(case):
+    cls, payload = case.out.get("AST", ("MISSING", ""))
+    return "OK " + payload if cls == "OK" else cls
